@@ -36,7 +36,7 @@ pub fn exercise(bytes: &[u8], st: &mut Stats, decoded: &dyn Fn() -> String) -> R
     }
     if bytes.len() % 4 == 0 {
         let words = bytes_to_words(bytes);
-        parse_words_collect(&words).map_err(wrap)?;
+        let _ = parse_words_collect(&words).map_err(wrap)?;
     }
     let m = load_bytes(bytes).map_err(wrap)?;
     match m {
